@@ -118,6 +118,35 @@ def builder(spec, shared=False):
 
 # {{{ persistent digests
 
+def typed_twin_specs(spec):
+    """Specs equal to *spec* for == but with constants of another type: ints as floats; 0 / 1 as
+    bools.  Only specs that differ from *spec* are returned."""
+    from vf.spec import rebuild, spec_children
+
+    def tr(s, f):
+        if not isinstance(s, tuple) or not s:
+            return s
+        if s[0] == "int" and len(s) == 2 and isinstance(s[1], int):
+            return f(s[1])
+        try:
+            ch = spec_children(s)
+        except Exception:  # noqa: BLE001
+            return s
+        if not ch:
+            return s
+        return rebuild(s, [tr(c, f) for c in ch])
+
+    out = []
+    for f in (lambda v: ("float", float(v)) if abs(v) < 2 ** 53 else ("int", v),
+              lambda v: ("bool", bool(v)) if v in (0, 1) else ("int", v)):
+        try:
+            t = tr(spec, f)
+        except Exception:  # noqa: BLE001
+            continue
+        if t != spec and t not in out:
+            out.append(t)
+    return out
+
 def digests(obj):
     """{'walk': outcome, 'kb': outcome}: the deprecated-but-present walk mapper fed with sha256
     (as in test_persistent_hash.py) and pytools' KeyBuilder on the expression itself (what the
@@ -529,8 +558,29 @@ class Consumer:
             return fails
         # ---- persistent digests ---------------------------------------------------------------
         try:
+            # keys of a clone that is dropped at once, then the ==-equal typed twins of the
+            # expression (every int constant as a float / 0 and 1 as bools) are keyed and stay
+            # alive while the expression itself is keyed: its keys must not depend on that
+            d0 = digests(make())
+            twins_alive = []
+            for tw in typed_twin_specs(spec):
+                try:
+                    t_obj = build(tw)
+                except RecursionError:
+                    raise
+                except Exception:  # noqa: BLE001
+                    continue
+                digests(t_obj)
+                twins_alive.append(t_obj)
+            counters["digest_twins_alive"] = counters.get("digest_twins_alive", 0) \
+                + len(twins_alive)
             local = make()
             dl = digests(local)
+            for k in ("walk", "kb"):
+                if twins_alive and d0[k] != dl[k]:
+                    fail(f"digest-after-twin:{k}",
+                         f"{d0[k]} when keyed alone, {dl[k]} when an ==-equal expression with "
+                         "constants of another type had been keyed before and was still alive")
             d2 = digests(local)                 # same object again (digest cache filled)
             try:
                 hash(local)
